@@ -232,6 +232,44 @@ func segLeaves(ctxs []xctx, parents []xop, leaves []string) xseg {
 	}}
 }
 
+// segPairsLeaf: ctx x parent x slot x child-op x child-slot x literal leaf (the other operands stay probes): the
+// shapes "operator applied to an operator whose operand is a constant", e.g. (f(), 0) || x, !(f(), ""), (a ? 1 : 1) + x.
+func segPairsLeaf(name string, ctxs []xctx, parents, children []xop, leaves []string) xseg {
+	type ps struct {
+		p    *xop
+		slot int
+	}
+	var pss, css []ps
+	for i := range parents {
+		for s := 0; s < parents[i].nE; s++ {
+			pss = append(pss, ps{&parents[i], s})
+		}
+	}
+	for i := range children {
+		for s := 0; s < children[i].nE; s++ {
+			css = append(css, ps{&children[i], s})
+		}
+	}
+	nc, np, nk, nl := uint64(len(ctxs)), uint64(len(pss)), uint64(len(css)), uint64(len(leaves))
+	return xseg{name, nc * np * nk * nl, func(i uint64) xcase {
+		ctx := ctxs[i%nc]
+		i /= nc
+		lf := leaves[i%nl]
+		i /= nl
+		ch := css[i%nk]
+		p := pss[i/nk]
+		if kindOf(ch.p) != "" || kindOf(p.p) != "" {
+			// await/yield operators are covered by segPairs; keep this segment to plain expressions
+			return mkCase(ctx, opNode(p.p), kindOf(p.p))
+		}
+		ck := make([]*xnode, ch.p.nE)
+		ck[ch.slot] = leafNode(lf)
+		kids := make([]*xnode, p.p.nE)
+		kids[p.slot] = opNode(ch.p, ck...)
+		return mkCase(ctx, opNode(p.p, kids...), "")
+	}}
+}
+
 // segLvals: parent-with-lvalue x every lvalue form.
 func segLvals(ctxs []xctx, parents []xop, lvals []string) xseg {
 	var ps []*xop
@@ -499,7 +537,9 @@ func runC01(c *Check) {
 	sp.segs = append(sp.segs, segCtxOp(ctxs, concatOps(all, xAsyncGen, xGen)))
 	sp.segs = append(sp.segs, segLeaves(pickCtx("return", "stmt", "for-init"), all, xLeafLit))
 	sp.segs = append(sp.segs, segLvals(pickCtx("return", "stmt", "for-init", "for-of"), all, xLvals))
+	constLeaves := []string{"0", "1", "\"\"", "null", "undefined", "true", "NaN", "\"s\""}
 	if c.Tier == "quick" {
+		sp.segs = append(sp.segs, segPairsLeaf("return*reduced*slot*reduced*slot*constant", pickCtx("return"), red, red, constLeaves[:5]))
 		sp.segs = append(sp.segs, segPairs("return*parent*slot*child(reduced)", pickCtx("return"), concatOps(all, xAsyncGen, xGen), red))
 		sp.segs = append(sp.segs, segPairs("spine-ctx*reduced*slot*reduced", pickCtx("stmt", "for-init", "arrow-body-noparen", "new-callee", "class-extends", "for-of", "label", "stmt-after-expr"), red, red))
 		// the same pairs without generated parentheses (esbuild remembers some source parentheses, so fully
@@ -509,6 +549,7 @@ func runC01(c *Check) {
 		sp.segs = append(sp.segs, segPairs("return*parent*slot*child", pickCtx("return"), concatOps(all, xAsyncGen, xGen), concatOps(all, xAsyncGen, xGen)))
 		sp.segs = append(sp.segs, segPairs("spine-ctx*parent*slot*reduced", pickCtx("stmt", "for-init", "for-var-init", "arrow-body-noparen", "new-callee", "class-extends", "for-of", "label", "stmt-after-expr", "tag", "exponent-left", "call-callee"), all, red))
 		sp.segs = append(sp.segs, segDepth3(pickCtx("return")[0], red))
+		sp.segs = append(sp.segs, segPairsLeaf("ctx*reduced*slot*reduced*slot*constant", pickCtx("return", "stmt", "if"), red, red, constLeaves))
 		sp.segs = append(sp.segs, segPairs("bare-ctx*parent*slot*reduced", withParens(pickCtx("return", "stmt", "for-init", "for-var-init", "arrow-body-noparen", "new-callee", "class-extends", "for-of", "exponent-left", "call-callee"), 2), all, red))
 		sp.segs = append(sp.segs, segPairs("bare-top-ctx*parent*slot*reduced", withParens(pickCtx("return", "stmt", "for-init", "for-var-init", "arrow-body-noparen"), 1), all, red))
 		sp.segs = append(sp.segs, segDepth3Parens(pickCtx("return")[0], red, 2))
